@@ -37,6 +37,9 @@ structure CurI where
   closed : Nat := 0
   closeCalls : Nat := 0
   held : Bool := false
+  /-- ghost: this object was returned to a request as a cursor at least once (`create … .ok`); the record of a
+      failed `newCursor` (`posErr`: journals taken and given back by `releaseJournals`, no cursor) has `false` -/
+  handed : Bool := false
 deriving Inhabited, Repr, DecidableEq
 
 /-- a Go `map[uint64]*CLElement` with its `len` -/
@@ -131,7 +134,7 @@ def create (s : St) (id query pos : Nat) (kind : CreateKind) (newCur newId : Nat
   match kind with
   | .noSrc => (s, .empty)
   | .posErr => (setCur s newCur { id := id, query := query, pos := pos, acquired := 1, closed := 1 }, .error)
-  | .ok => (setCur s newCur { id := id, query := query, pos := pos, acquired := 1, held := true }, .cur newCur)
+  | .ok => (setCur s newCur { id := id, query := query, pos := pos, acquired := 1, held := true, handed := true }, .cur newCur)
 
 inductive InsertRes where
   | cached
